@@ -624,6 +624,7 @@ fn run_json_text(rep: &mut Report, text: &str, origin: &str) {
         }
         Ok(d) => {
             rep.case(&format!("J {}", hex(text.as_bytes())), &d.as_ref().map(dump).unwrap_or_else(|| "N".into()));
+            run_value_text(rep, text, d.as_ref(), &inp);
             lsp_route(rep, text, d.as_ref(), &inp);
             if let Some(c) = &d {
                 // what was read survives a further round trip
@@ -749,6 +750,268 @@ fn random_json_text(cx: &Ctx, r: &mut Rng) -> String {
     }
     out
 }
+
+// ------------------------------------------------------------------------------------------------
+// W / V: the serde_json::Value route (from_str::<Value> + from_value) and Config::from_lsp_config on settings texts
+// ------------------------------------------------------------------------------------------------
+/// W: the text of a `linters` value alone through from_str::<Value> then from_value::<LintGroupConfig>
+/// (model: C11JsonValue.parse_json + from_value).  N = not JSON, B = JSON of the wrong shape.
+/// Oracle (C11_value_route_of_typed): whatever the typed parser accepts, this route accepts with the same result.
+fn run_value_text(rep: &mut Report, text: &str, typed: Option<&LintGroupConfig>, inp: &Value) {
+    let out = guarded(|| match serde_json::from_str::<Value>(text) {
+        Err(_) => (String::from("N"), None),
+        Ok(v) => match serde_json::from_value::<LintGroupConfig>(v) {
+            Err(_) => ("B".into(), None),
+            Ok(c) => (dump(&c), Some(c)),
+        },
+    });
+    match out {
+        Err(m) => {
+            rep.case(&format!("W {}", hex(text.as_bytes())), "PANIC");
+            rep.fail("panic", format!("Value route panicked: {m}"), inp.clone());
+        }
+        Ok((line, got)) => {
+            rep.case(&format!("W {}", hex(text.as_bytes())), &line);
+            rep.count(match line.as_str() {
+                "N" => "value_route:not_json",
+                "B" => "value_route:wrong_shape",
+                _ => "value_route:accepted",
+            });
+            if let Some(t) = typed {
+                if got.as_ref() != Some(t) {
+                    rep.fail("value_route_differs", format!("from_str::<LintGroupConfig> gives {} but from_str::<Value> + from_value gives {line}", dump(t)), inp.clone());
+                }
+            }
+        }
+    }
+}
+
+/// the keys Config::from_lsp_config reads besides "linters" (the model's list is generated from config.rs:
+/// Tables_c11routes.lsp_other_keys — a key added there and not here shows up as a disagreement)
+const LSP_OTHER_KEYS: &[&str] = &["userDictPath", "fileDictPath", "statsPath", "diagnosticSeverity", "dialect", "codeActions", "isolateEnglish", "markdown"];
+
+/// V: a complete settings text -> from_str::<Value> -> Config::from_lsp_config(..).lint_config
+/// N = not JSON, O = the "harper-ls" object carries another key from_lsp_config reads (outside the model),
+/// B = from_lsp_config bails.  `expect` = the configuration the text was printed from (round-trip oracle).
+#[cfg(feature = "ls")]
+fn run_settings_text(rep: &mut Report, text: &str, expect: Option<&CMap>, origin: &str) {
+    rep.eval();
+    let inp = json!({"kind": "settings", "text": text, "expect": expect.map(map_json), "origin": origin});
+    let out = guarded(|| match serde_json::from_str::<Value>(text) {
+        Err(_) => (String::from("N"), None),
+        Ok(v) => {
+            let other = v.as_object().and_then(|o| o.get("harper-ls")).and_then(|h| h.as_object()).map(|h| LSP_OTHER_KEYS.iter().any(|k| h.contains_key(*k))).unwrap_or(false);
+            if other {
+                ("O".into(), None)
+            } else {
+                match lsx::config::Config::from_lsp_config(v) {
+                    Err(_) => ("B".into(), None),
+                    Ok(c) => (dump(&c.lint_config), Some(c.lint_config)),
+                }
+            }
+        }
+    });
+    match out {
+        Err(m) => {
+            rep.case(&format!("V {}", hex(text.as_bytes())), "PANIC");
+            rep.fail("panic", format!("from_lsp_config panicked: {m} at {}", hv::common::last_panic_location()), inp);
+        }
+        Ok((line, got)) => {
+            rep.case(&format!("V {}", hex(text.as_bytes())), &line);
+            rep.count(match line.as_str() {
+                "N" => "settings:not_json",
+                "O" => "settings:other_key",
+                "B" => "settings:bail",
+                "{}" => "settings:empty_config",
+                _ => "settings:config",
+            });
+            if let Some(m) = expect {
+                rep.monitor("lsp_settings_roundtrip_checked", 1);
+                if got.as_ref().map(cfg_map).as_ref() != Some(m) {
+                    rep.fail("lsp_roundtrip", format!("settings printed from {} configure {line}", dump_map(m)), inp);
+                } else {
+                    rep.nontrivial(&text.to_string());
+                }
+            }
+        }
+    }
+}
+#[cfg(not(feature = "ls"))]
+fn run_settings_text(_rep: &mut Report, _text: &str, _expect: Option<&CMap>, _origin: &str) {}
+
+const NUMBER_POOL: &[&str] = &[
+    "0", "-0", "1", "-1", "12", "1.5", "-2.5e3", "1E5", "1e-5", "0.0", "0e0", "1e308", "1e309", "-1e309", "1.7976931348623157e308",
+    "1.7976931348623158e308", "1.7976931348623159e308", "1.8e308", "17976931348623157e292", "179769313486231580793728971405303415079934132710037826936173778980444968292764750946649017977587207096330286416692887910946555547851940402630657488671505820681908902000708383676273854845817711531764475730270069855571366959622842914819860834936475292719074168444365510704342711559699508093042880177904174497791",
+    "179769313486231580793728971405303415079934132710037826936173778980444968292764750946649017977587207096330286416692887910946555547851940402630657488671505820681908902000708383676273854845817711531764475730270069855571366959622842914819860834936475292719074168444365510704342711559699508093042880177904174497792",
+    "123456789012345678901234567890", "18446744073709551615", "18446744073709551616", "-9223372036854775808", "-9223372036854775809", "0e999999999999", "0.000e+99999999999", "1e999999999999", "1e-999999999999", "0.1e2147483648", "5e-324", "1e-400",
+    "00", "01", "-", "-a", "1.", "1.e3", ".5", "1e", "1e+", "1e-", "+1", "0x10", "1_0", "NaN", "Infinity", "-Infinity", "2e", "1.0.0", "1ee5", "-00", "-01", "1.5.", "0.", "1e5.5", "١",
+];
+
+/// a JSON value text (mostly valid), nesting up to `depth`
+fn gen_value_text(cx: &Ctx, r: &mut Rng, depth: usize) -> String {
+    let ws = |r: &mut Rng| r.s(&["", "", "", " ", "\n", "\t", "\r", " \n"]).to_string();
+    let leafy = depth == 0 || r.chance(2, 3);
+    let body = if leafy {
+        match r.below(10) {
+            0..=2 => r.s(&["true", "false", "null"]).to_string(),
+            3..=5 => {
+                // mostly grammatical literals (the range edge included), now and then a malformed one
+                let valid = NUMBER_POOL.iter().position(|x| *x == "00").unwrap();
+                if r.chance(5, 6) { NUMBER_POOL[r.below(valid)].to_string() } else { NUMBER_POOL[valid + r.below(NUMBER_POOL.len() - valid)].to_string() }
+            }
+            6..=7 => {
+                let k = cx.small_key(r);
+                json_string_literal(r, &k)
+            }
+            8 if r.chance(1, 3) => r.s(&["tru", "nul", "falsee", "True", "NULL", "\"abc", "\"\\x\"", "\"\\ud800\"", "'a'", "", "undefined", "[", "{", "]", "}", ","]).to_string(),
+            _ => r.s(&["[]", "{}", "[ ]", "{ }", "\"\""]).to_string(),
+        }
+    } else if r.chance(1, 2) {
+        let n = r.below(4);
+        let mut out = String::from("[");
+        for i in 0..n {
+            out.push_str(&gen_value_text(cx, r, depth - 1));
+            if i + 1 < n || r.chance(1, 25) {
+                out.push(',');
+            }
+        }
+        if r.chance(1, 30) { out.push(','); }
+        if !r.chance(1, 30) { out.push(']'); }
+        out
+    } else {
+        let n = r.below(4);
+        let mut out = String::from("{");
+        for i in 0..n {
+            out.push_str(&ws(r));
+            let k = if r.chance(1, 4) { "a".to_string() } else { cx.small_key(r) };
+            out.push_str(&json_string_literal(r, &k));
+            out.push_str(&ws(r));
+            if !r.chance(1, 40) { out.push(':'); }
+            out.push_str(&gen_value_text(cx, r, depth - 1));
+            if i + 1 < n || r.chance(1, 25) {
+                out.push(',');
+            }
+        }
+        if !r.chance(1, 30) { out.push('}'); }
+        out
+    };
+    format!("{}{}{}", ws(r), body, ws(r))
+}
+
+/// the text of a `linters` value: a printed configuration | a configuration text with faults | an object mixing
+/// booleans with other values | any value
+fn gen_linters_text(cx: &Ctx, r: &mut Rng) -> (String, Option<CMap>) {
+    match r.below(10) {
+        0..=3 => {
+            let m = if r.chance(1, 12) { let (a, st, f) = full_map_parts(cx, r); full_map(cx, &a, &st, &f) } else { cx.random_map(r, 6) };
+            let t = if r.chance(1, 2) { serde_json::to_string(&mk_cfg(&m)).unwrap() } else { serde_json::to_string_pretty(&map_json(&m)).unwrap() };
+            (t, Some(m))
+        }
+        4..=6 => (random_json_text(cx, r), None),
+        7..=8 => {
+            // an object whose values are mostly booleans, with a few other values and duplicate keys
+            let n = r.range(1, 5);
+            let mut out = String::from("{");
+            for i in 0..n {
+                let k = if r.chance(1, 3) { "b".to_string() } else { cx.small_key(r) };
+                out.push_str(&json_string_literal(r, &k));
+                out.push(':');
+                if r.chance(1, 3) {
+                    out.push_str(gen_value_text(cx, r, 2).trim());
+                } else {
+                    out.push_str(r.s(&["true", "false", "null"]));
+                }
+                if i + 1 < n {
+                    out.push(',');
+                }
+            }
+            out.push('}');
+            (out, None)
+        }
+        _ => (gen_value_text(cx, r, 3), None),
+    }
+}
+
+fn gen_settings_text(cx: &Ctx, r: &mut Rng) -> (String, Option<CMap>) {
+    let ws = |r: &mut Rng| r.s(&["", "", "", " ", "\n", "\t", " \r\n"]).to_string();
+    let shape = r.below(40);
+    if shape == 0 {
+        return (gen_value_text(cx, r, 2), None); // settings that are any value
+    }
+    if shape == 1 {
+        return (format!("{{\"harper-ls\":{}}}", gen_value_text(cx, r, 1)), None); // "harper-ls" is any value
+    }
+    if shape == 2 {
+        // nesting depth around serde_json's recursion limit (128) inside a key nobody reads
+        let n = r.range(123, 130);
+        let open = if r.chance(1, 2) { "[" } else { "{\"a\":" };
+        let close = if open == "[" { "]" } else { "}" };
+        let inner = r.s(&["", "true", "1", "{}", "[]"]);
+        let inner = if open != "[" && inner.is_empty() { "null" } else { inner };
+        let deep = format!("{}{}{}", open.repeat(n), inner, close.repeat(n));
+        let (lt, m) = gen_linters_text(cx, r);
+        return if r.chance(1, 2) {
+            (format!("{{\"harper-ls\":{{\"linters\":{lt},\"zz\":{deep}}}}}"), m)
+        } else {
+            (format!("{{\"harper-ls\":{{\"aa\":{deep},\"linters\":{lt}}}}}"), m)
+        };
+    }
+    let (lt, first_expect) = gen_linters_text(cx, r);
+    // members of the "harper-ls" object (text, Some(expectation) when it is a "linters" member), in a random order
+    let mut members: Vec<(String, Option<Option<CMap>>)> = vec![];
+    if shape != 3 {
+        members.push((format!("\"linters\"{}:{}{}", ws(r), ws(r), lt), Some(first_expect)));
+    }
+    for _ in 0..r.below(3) {
+        let k = r.s(&["Linters", "linter", "linters ", "x", "", "harper-ls", "SpellCheck", "dialect2", "lint\u{0}ers"]).to_string();
+        members.push((format!("{}:{}", json_string_literal(r, &k), gen_value_text(cx, r, 2)), None));
+    }
+    if r.chance(1, 12) {
+        // a second "linters" member: the later one wins (serde_json::Map::insert)
+        let (lt2, m2) = gen_linters_text(cx, r);
+        members.push((format!("\"linters\":{lt2}"), Some(m2)));
+    }
+    let mut other_key = false;
+    if r.chance(1, 15) {
+        let k = *r.pick(LSP_OTHER_KEYS);
+        members.push((format!("\"{k}\":{}", r.s(&["true", "\"British\"", "{}", "\"hint\"", "null", "1"])), None));
+        other_key = true; // outside the model (answer O)
+    }
+    for n in (1..members.len()).rev() {
+        members.swap(n, r.below(n + 1));
+    }
+    // no "linters" member: the default (empty) configuration; several: the last one
+    let mut expect: Option<CMap> = if other_key { None } else { members.iter().rev().find_map(|m| m.1.clone()).unwrap_or(Some(CMap::new())) };
+    let members: Vec<String> = members.into_iter().map(|m| m.0).collect();
+    let inner = format!("{{{}{}{}}}", ws(r), members.join(&format!("{},{}", ws(r), ws(r))), ws(r));
+    let mut tops: Vec<String> = vec![format!("\"harper-ls\"{}:{}{}", ws(r), ws(r), inner)];
+    if shape == 4 {
+        tops.clear();
+        expect = None;
+    }
+    for _ in 0..r.below(2) {
+        let k = r.s(&["harper", "harper-ls2", "", "editor", "linters"]).to_string();
+        tops.push(format!("{}:{}", json_string_literal(r, &k), gen_value_text(cx, r, 1)));
+    }
+    if shape == 5 {
+        // "harper-ls" twice: the later member wins
+        tops.push(format!("\"harper-ls\":{}", r.s(&["{}", "null", "{\"linters\":{\"a\":true}}"])));
+        expect = None;
+    }
+    if shape != 5 {
+        for n in (1..tops.len()).rev() {
+            tops.swap(n, r.below(n + 1));
+        }
+    }
+    let mut out = format!("{}{{{}}}{}", ws(r), tops.join(","), ws(r));
+    if shape == 6 {
+        out.push_str(r.s(&["x", "}", ",", "null", "{}"]));
+        expect = None;
+    }
+    // an expectation only holds if every generated sibling was valid JSON; the oracle below re-derives that
+    (out, expect)
+}
+
 
 fn run_print(rep: &mut Report, m: &CMap) {
     rep.eval();
@@ -1768,6 +2031,10 @@ fn replay_input(rep: &mut Report, cx: &Ctx, ls: &mut Linters, wasm: &mut Option<
             }
         }
         "json" => run_json_text(rep, v["text"].as_str().unwrap_or(""), "replay"),
+        "settings" => {
+            let e = if v["expect"].is_object() { Some(json_map(&v["expect"])) } else { None };
+            run_settings_text(rep, v["text"].as_str().unwrap_or(""), e.as_ref(), "replay")
+        }
         "print" => run_print(rep, &json_map(&v["cfg"])),
         "hash" => run_hash(rep, &json_map(&v["cfg"])),
         "dispatch" => run_dispatch(rep, v["seed"].as_u64().unwrap_or(0), "replay"),
@@ -1827,6 +2094,13 @@ fn main() {
     for _ in 0..a.scale(1500, 30000) {
         let t = random_json_text(&cx, &mut r);
         run_json_text(&mut rep, &t, "random");
+    }
+    // V: settings texts through from_str::<Value> + Config::from_lsp_config  (W rides on every J text)
+    for _ in 0..a.scale(1500, 25000) {
+        let (t, e) = gen_settings_text(&cx, &mut r);
+        // the expectation presumes the siblings of "linters" were valid JSON: drop it when the text is not JSON at all
+        let e = if serde_json::from_str::<Value>(&t).is_ok() { e } else { None };
+        run_settings_text(&mut rep, &t, e.as_ref(), "random");
     }
     for _ in 0..a.scale(300, 4000) {
         let m = cx.random_map(&mut r, 8);
